@@ -295,7 +295,8 @@ impl W {
         let n = 3 + c.below(5);
         let mut out = Vec::new();
         for i in 0..n {
-            let name = format!("f{i}");
+            // (names that start like the package prefix or like compiler-made names are ordinary names)
+            let name = format!("{}{i}", ["f", "f", "pkg", "pkg_", "pkgs", "generated", "test_", "Pkg", "ｆ", "drop_", "clone_"][c.below(11)]);
             let kind = c.below(10);
             // signature: derived from a catalogue entry (exact or near miss) or random
             let (mut params, mut ret) = if kind < 7 {
